@@ -185,6 +185,11 @@ def gen_case(idx: int, seed: int, tier: str) -> Any:
         if key in ("max_threads", "start_timeout"):
             val = rng.choice(["4", "6"])
         sets.append(["kv", key, val])
+    if rng.random() < 0.15:
+        # the same key overridden twice with an override of its parent in between: overrides apply in command-line order
+        base2 = "component" if layout == "component" else (f"services.{rng.choice(names)}.component" if names else "")
+        if base2:
+            sets.extend([["kv", f"{base2}.nested.a", "first"], ["kv", f"{base2}.nested", "{b: 2}"], ["kv", f"{base2}.nested.a", "last"]])
     if rng.random() < 0.02:
         files[-1]["services"] = rng.choice([["server", "client"], "server", 5])  # not a mapping: the command must fail
 
